@@ -17,6 +17,10 @@ for f in sorted(glob.glob('/verif/seeded/*/meta.json')):
             if c not in classes:
                 classes.append(c)
     verdict = {1: 'caught', 0: 'MISSED', 2: 'undecided'}.get(ck.get('exit'), '?')
+    if d.get('in_scope') is False:
+        verdict = 'quiet (correct: out of scope)'
+    if d.get('assessment'):
+        needs = d['assessment'].replace('|', '/')[:260]
     valid = d.get('valid', 'own')
     rows.append((sid, prop, valid, verdict, ', '.join(classes), summ[:150], needs[:150]))
 print('| id | property | valid | quick check | violation classes | change | needs |')
